@@ -44,15 +44,8 @@ Proof.
   repeat split; try solve [thin].
   - intros rd. unfold rd_then, bind. destruct (NewMapJsonReaderRaw rd) as [[[m raw]|e|] rest]; cbn [fst snd]; reflexivity.
   - intros j k. unfold j2x_JsonPathForKeyShortest, c_JsonPathForKeyShortest, path_for_key_shortest, bind.
-    destruct (NewMapJson j); try reflexivity. rewrite xw_shortest_of_spec. reflexivity.
+    destruct (NewMapJson j); try reflexivity; rewrite xw_shortest_of_spec; reflexivity.
 Qed.
-
-(* MapToJson: the safeEncoding argument never reaches Map.Json *)
-Lemma j2x_MapToJson_drops_flag m f : j2x_MapToJson MapJson m f = MapJson m false.
-Proof. reflexivity. Qed.
-Lemma j2x_MapToJson_differs m :
-  MapJson m true <> MapJson m false -> j2x_MapToJson MapJson m true <> c_MapToJson MapJson m true.
-Proof. intros H E. apply H. symmetry. exact E. Qed.
 
 (* ---- package x2j ---- *)
 Lemma x2j_agrees_holds :
@@ -66,7 +59,7 @@ Proof.
   repeat split; try solve [thin].
   - intros rd f. unfold rd_then, bind. destruct (NewMapXmlReaderRaw rd) as [[[m raw]|e|] rest]; cbn [fst snd]; reflexivity.
   - intros x t. unfold x2j_XmlPathForTagShortest, c_XmlPathForTagShortest, path_for_key_shortest, bind.
-    destruct (NewMapXml x false); try reflexivity. rewrite xw_shortest_of_spec. reflexivity.
+    destruct (NewMapXml x false); try reflexivity; rewrite xw_shortest_of_spec; reflexivity.
   - intros rd f. unfold x2j_XmlReaderToJsonWriter, rd_then, bind.
     destruct (NewMapXmlReaderRaw rd) as [[[m raw]|e|] rest]; cbn [fst snd]; reflexivity.
 Qed.
@@ -82,53 +75,47 @@ Proof.
 Qed.
 End ThinProofs.
 
-(* ---- package x2j-wrapper: the *Tag functions = decode ; the wrapper's own walker; with the walker theorems of
-   Proofs/C20P.v they equal decode ; core walker under the walkers' side conditions ---- *)
-From Mxj Require Import Proofs.C20P Proofs.C07P Spec.KeySearch.
+(* ---- package x2j-wrapper: the *Tag functions = decode ; the wrapper's own walker = decode ; core walker /
+   path semantics (walker theorems of Proofs/C20P.v) ---- *)
+From Mxj Require Import Proofs.C07P Spec.KeySearch.
 
 Section TagProofs.
 Variable NewMapXml : str -> bool -> res value.
 Variable NewMapXmlReader : str -> bool -> res value * str.
 
-Lemma xw_PathsForTag_core doc key :
-  (forall m, NewMapXml doc false = Ok m -> key_not_nested key m = true) ->
-  xw_PathsForTag NewMapXml doc key = c_PathsForTag NewMapXml doc key.
+Lemma xw_PathsForTag_core doc key : xw_PathsForTag NewMapXml doc key = c_PathsForTag NewMapXml doc key.
 Proof.
-  intros H. unfold xw_PathsForTag, c_PathsForTag, bind.
-  destruct (NewMapXml doc false) as [m|e|]; try reflexivity. rewrite xw_paths_nonnested by (apply H; reflexivity). reflexivity.
+  unfold xw_PathsForTag, c_PathsForTag, bind.
+  destruct (NewMapXml doc false) as [m|e|]; try reflexivity; rewrite xw_paths_core; reflexivity.
 Qed.
 
 Lemma xw_PathForTagShortest_core doc key :
-  (forall m, NewMapXml doc false = Ok m -> key_not_nested key m = true) ->
   xw_PathForTagShortest NewMapXml doc key = c_PathForTagShortest NewMapXml doc key.
 Proof.
-  intros H. unfold xw_PathForTagShortest, c_PathForTagShortest, bind.
-  destruct (NewMapXml doc false) as [m|e|]; try reflexivity. rewrite xw_shortest_nonnested by (apply H; reflexivity). reflexivity.
+  unfold xw_PathForTagShortest, c_PathForTagShortest, bind.
+  destruct (NewMapXml doc false) as [m|e|]; try reflexivity; rewrite xw_shortest_core; reflexivity.
 Qed.
 
 Lemma xw_ValuesFromTagPath_spec doc path ga :
-  (forall m, NewMapXml doc false = Ok m -> no_empty_key m = true) ->
   xw_ValuesFromTagPath NewMapXml doc path ga = c_ValuesFromTagPath NewMapXml doc path ga.
 Proof.
-  intros H. unfold xw_ValuesFromTagPath, c_ValuesFromTagPath, bind.
-  destruct (NewMapXml doc false) as [m|e|]; try reflexivity. apply xw_values_from_filtered. apply H. reflexivity.
+  unfold xw_ValuesFromTagPath, c_ValuesFromTagPath, bind.
+  destruct (NewMapXml doc false) as [m|e|]; try reflexivity; rewrite xw_values_from_filtered; reflexivity.
 Qed.
 
 Lemma xw_ValuesAtTagPath_spec doc path ga :
-  (forall m, NewMapXml doc false = Ok m -> no_empty_key m = true) ->
   xw_ValuesAtTagPath NewMapXml doc path ga = c_ValuesAtTagPath NewMapXml doc path ga.
 Proof.
-  intros H. unfold xw_ValuesAtTagPath, c_ValuesAtTagPath, bind.
-  destruct (NewMapXml doc false) as [m|e|]; try reflexivity. apply xw_values_at_ok. apply H. reflexivity.
+  unfold xw_ValuesAtTagPath, c_ValuesAtTagPath, bind.
+  destruct (NewMapXml doc false) as [m|e|]; try reflexivity; rewrite xw_values_at_spec; reflexivity.
 Qed.
 
 Lemma xw_ReaderValuesFromTagPath_spec rd path ga :
-  (forall m, fst (NewMapXmlReader rd false) = Ok m -> no_empty_key m = true) ->
   xw_ReaderValuesFromTagPath NewMapXmlReader rd path ga = c_ReaderValuesFromTagPath NewMapXmlReader rd path ga.
 Proof.
-  intros H. unfold xw_ReaderValuesFromTagPath, c_ReaderValuesFromTagPath, rd_then, bind.
-  destruct (NewMapXmlReader rd false) as [[m|e|] rest]; cbn [fst snd] in *; try reflexivity.
-  rewrite xw_values_from_filtered by (apply H; reflexivity). reflexivity.
+  unfold xw_ReaderValuesFromTagPath, c_ReaderValuesFromTagPath, rd_then, bind.
+  destruct (NewMapXmlReader rd false) as [[m|e|] rest]; cbn [fst snd]; try reflexivity;
+  rewrite xw_values_from_filtered; reflexivity.
 Qed.
 
 Lemma xw_ValuesForTag_core doc tag :
@@ -138,13 +125,12 @@ Lemma xw_ValuesForTag_core doc tag :
   end = c_ValuesForTag NewMapXml doc tag.
 Proof.
   intros Ht. unfold xw_ValuesForTag, c_ValuesForTag, bind, xw_values_for_key.
-  destruct (NewMapXml doc false) as [m|e|]; try reflexivity. rewrite (xw_has_key_final tag Ht m). reflexivity.
+  destruct (NewMapXml doc false) as [m|e|]; try reflexivity; rewrite (xw_has_key_final tag Ht m); reflexivity.
 Qed.
 End TagProofs.
 
-(* ---- CastNanInf of x2j-wrapper never reaches the decoder's flag ---- *)
-Lemma xw_CastNanInf_noop b st : decoder_castNanInf (xw_CastNanInf b st) = decoder_castNanInf st.
+(* ---- CastNanInf of x2j-wrapper is mxj's switch ---- *)
+Lemma xw_CastNanInf_core b st : xw_CastNanInf b st = c_CastNanInf b st.
 Proof. reflexivity. Qed.
-Lemma xw_CastNanInf_refuted :
-  exists b st, decoder_castNanInf (xw_CastNanInf b st) <> decoder_castNanInf (c_CastNanInf b st).
-Proof. exists true, {| core_castNanInf := false; own_castNanInf := false |}. discriminate. Qed.
+Lemma xw_CastNanInf_sets b st : decoder_castNanInf (xw_CastNanInf b st) = b.
+Proof. reflexivity. Qed.
